@@ -91,6 +91,20 @@ def main():
         if X[0, s2i['A']] == 0 and X[0, s2i['B']] != A0:      # (A exhausted by t0 with probability 1 - 40*exp(-40))
             return dict(reproduced=True, call='delay_simulate %s %r seed=%d on np.arange(%r, %r, %r) with the interface starting at time 0' % (kind, dpar, seed, t0, t0 + 3, dt),
                         observed=dict(first_rows_of_B=X[:4, s2i['B']].tolist()), expected='B == %d from the first row on (every firing and delivery happened long before %r)' % (A0, t0))
+    # every delay is drawn from ITS OWN reaction's distribution: consecutive Gaussian draws with different (mean, std), alone and next to gamma
+    # draws - a draw from N(mean, std) with a tiny std lies next to its mean whatever was drawn before it
+    from bioscrape.random import py_normal_rv, py_gamma_rv
+    for it in range(SPEC.get('sampler_rounds', 200)):
+        py_seed_random(rng.randint(1, 10 ** 6)) if it % 20 == 0 else None
+        if rng.random() < 0.5:
+            py_normal_rv(rng.uniform(-5, 5), rng.uniform(0.5, 3))
+        else:
+            py_gamma_rv(rng.choice([1.0, 2.5, 4.0]), rng.uniform(0.2, 2))
+        mean = rng.choice([40.0, 100.0, -7.0])
+        x = py_normal_rv(mean, 1e-3)
+        n += 1
+        if abs(x - mean) > 1e-2:
+            return dict(reproduced=True, call='py_normal_rv(%r, 0.001) after an earlier normal / gamma draw with other parameters' % mean, observed=float(x), expected='within 0.01 of %r' % mean)
     return dict(reproduced=False, evaluations=n)
 
 
